@@ -110,7 +110,7 @@ def _content_id(handler):
     """Which data set *everything* the handler serves derives from (types, attributes, effects, buff templates over all
     ids any data set uses); 0 = serves nothing, -1 = a mixture / something no single data set produces."""
     sv = G.served(handler)
-    if all(isinstance(v, str) for v in sv.values()):
+    if all(isinstance(v, str) for k, v in sv.items() if k != 'type-attributes-without-definition'):
         return 0
     for salt in (1, 2, 3, 4, 5):
         if sv == _ref_served(salt):
@@ -292,6 +292,9 @@ def _oracle_case(rep, rnd, tmp, n, state, version, rounds):
     ref = G.JsonCacheHandler('%s/ref%d.json.bz2' % (tmp, n))
     ref.update_cache(EveObjBuilder.run(G.DataHandler(version, _salt(version))), 'ref')
     src = SourceManager.get('one')
+    if G.served(src.cache_handler)['type-attributes-without-definition']:
+        rep.violate('the source serves a type carrying attributes it cannot serve: %r' % (
+            G.served(src.cache_handler)['type-attributes-without-definition'],), case)
     if want_rebuild and G.served(src.cache_handler) != G.served(ref):
         rep.violate('after a rebuild the source does not serve objects of the current data', case)
     if not want_rebuild and G.served(src.cache_handler) != G.served(ref):
